@@ -269,6 +269,11 @@ func (s *Session) readHandshake(msg Message) error {
 		}
 		s.hsIndex = 4
 		s.nonce = noncePostHandshake
+	case !s.isInit && s.hsIndex == 3 && nonce == nonceInitDone:
+		// only a repetition of the InitDone of this handshake is answered with the cached RespDone.
+		if _, err := s.cipherIn.Decrypt(nil, uint64(nonceInitDone), msg.HeaderBytes(), msg.Body()); err != nil {
+			return errors.New("message not for this session")
+		}
 	case (s.isInit && nonce%2 == 1) || (!s.isInit && nonce%2 == 0):
 		return nil
 	default:
